@@ -282,6 +282,9 @@ def call(conn, op, args):
     """build the argument objects and call the operation; Iter* generators are exhausted"""
     kw = {k: D.build(v) for k, v in args.items()}
     r = getattr(conn, op)(**kw)
-    if op.startswith('Iter'):
+    if op == 'IterQueryInstances':
+        # returns an object with a generator attribute (and the query result class)
+        r = [r.query_result_class] + list(r.generator)
+    elif op.startswith('Iter'):
         r = list(r)
     return r
